@@ -38,7 +38,7 @@ def build(outdir, variant="plain", extra=""):
 
 
 # ------------------------------------------------------------------ TLC
-def tlc(spec, cfg, env=None, workers=1, metadir=None, timeout=600, extra=None, heap="2g", simulate=None, depth=None):
+def tlc(spec, cfg, env=None, workers=1, metadir=None, timeout=600, extra=None, heap="2g", simulate=None, depth=None, ok_timeout=False):
     """run TLC; returns dict(rc, out, states, distinct, depth, result, violated, error)"""
     md = metadir or tempfile.mkdtemp(prefix="tlcmd_")
     cmd = ["java", "-XX:+UseSerialGC" if workers == 1 else "-XX:+UseParallelGC", "-Xmx" + heap, "-Xss64m", "-cp", JAR,
